@@ -34,19 +34,27 @@ def step_req(client, u, kind):
         return client.post("/%s/run-step" % u, json={"settings": {}})
     if kind.startswith("multi"):
         # one request that advances two steps with the same settings object
-        return client.post("/%s/run-steps" % u, json={"numberSteps": 2, "settings": {"sm": {"base": {"constants": {"c": float(kind[5:])}}}}})
-    return client.post("/%s/run-step" % u, json={"settings": {"sm": {"base": {"constants": {"c": float(kind)}}}}})
+        return client.post("/%s/run-steps" % u, json={"numberSteps": 2, "settings": {SM[0]: {"base": {"constants": {"c": float(kind[5:])}}}}})
+    return client.post("/%s/run-step" % u, json={"settings": {SM[0]: {"base": {"constants": {"c": float(kind)}}}}})
 
 def snapshot(app, client, u):
     ss = app._instance_manager._instances[u]["instance"].session_state
+    keep_clock = ss.get("step")
     r1 = client.get("/%s/session-results" % u)
     r2 = client.get("/%s/flat-session-results" % u)
     keep = {k: ss[k] for k in ss if k != "lock"}
-    return norm(dict(state=keep, results=json.loads(r1.data), flat=json.loads(r2.data)))
+    def body(r):
+        try:
+            return json.loads(r.data) if r.status_code == 200 else {"HTTP status": r.status_code}
+        except ValueError:
+            return {"HTTP status": r.status_code, "body": "not JSON"}
+    return norm(dict(state=keep, results=body(r1), flat=body(r2)))
 
 def run_c19(case):
-    """case: dict(compress, kinds=[...per step...], mode='evict'|'server')"""
+    """case: dict(compress, kinds=[...per step...], mode='evict'|'server', manager='sm'|'2024', runspec=[start, stop, dt])"""
     d = tempfile.mkdtemp()
+    SM[0] = case.get("manager", "sm")
+    RUNSPEC[:] = case.get("runspec", [1.0, 10.0, 1.0])
     try:
         app = make_app(fake_clock=True, adapter=FileAdapter(case["compress"], d))
         client = app.test_client()
@@ -55,7 +63,7 @@ def run_c19(case):
             # an earlier session of the same instance that was saved at the same clock positions
             for kind in case["resession"]:
                 step_req(client, u, kind)
-            client.post("/%s/begin-session" % u, json={"scenario_managers": ["sm"], "scenarios": ["base"], "equations": ["s"]})
+            client.post("/%s/begin-session" % u, json={"scenario_managers": [SM[0]], "scenarios": ["base"], "equations": ["s"]})
         for kind in case["kinds"]:
             r = step_req(client, u, kind)
             if r.status_code != 200:
@@ -165,6 +173,12 @@ def gen19(rnd):
         kinds = [rnd.choice(['1.0', '2.0', 'none', 'empty', 'multi1.0', 'multi3.0']) for _ in range(n)]
     kinds = kinds[:4] if any(k.startswith('multi') for k in kinds) else kinds
     case = dict(compress=compress, kinds=kinds, mode=rnd.choice(['evict', 'server']))
+    if rnd.random() < 0.25:
+        case['manager'] = '2024'          # a scenario manager whose name looks like a number
+    if not compress and rnd.random() < 0.3:
+        # (the compressed format is known to be lossy for start times / dt other than 1: uncompressed mode only)
+        case['runspec'] = rnd.choice([[0.5, 9.5, 1.0], [0.25, 4.75, 0.5], [0.0, 4.0, 0.25]])
+        case['kinds'] = case['kinds'][:6]
     if rnd.random() < 0.35 and len(kinds) <= 5:
         # the same instance had an earlier session with the same number of steps / requests (other settings, other equations)
         case['resession'] = [('multi7.0' if k.startswith('multi') else '7.0') for k in kinds]
